@@ -12,7 +12,7 @@
 #include "Exception.c"
 #include "hcommon.h"
 
-enum { PSKIP, PTICK, PSEQ, PTHROW, PTRY, PCALL };
+enum { PSKIP, PTICK, PSEQ, PTHROW, PTRY, PCALL, PTHROWF };
 typedef struct Node { int tag, n, m, mask; struct Node *a, *b; } Node;
 
 #include "exn_objs.h"
@@ -34,6 +34,9 @@ static Node* parse(void) {
     case '!': n->tag = PTHROW; n->n = atoi(t+1); n->m = strchr(t, ',') ? atoi(strchr(t, ',')+1) : 0;
               if (n->n / 10 >= 4 || n->n % 10 >= NVAR)   /* the compiled filters know kinds 0..3 */ { P("BADCASE"); fflush(OUT); _exit(0); }
               break;
+    case 'F': n->tag = PTHROWF; n->n = atoi(t+1); n->m = strchr(t, ',') ? atoi(strchr(t, ',')+1) : 0;
+              if (n->n / 10 >= 4 || n->n % 10 >= NVAR) { P("BADCASE"); fflush(OUT); _exit(0); }
+              n->a = parse(); break;
     case 'T': n->tag = PTRY;
               for (char* c = t+1; *c; ) { int o = atoi(c); n->mask |= 1 << ((o / 10) & 3);
                                           while (*c && *c != '.') c++; if (*c == '.') c++; }
@@ -85,6 +88,7 @@ static void run_try(Node* n) {
 }
 
 static void run_call(Node* n) { run(n->a); }
+static void run_v(void* n) { run((Node*)n); }
 
 static void run(Node* n) {
   switch (n->tag) {
@@ -92,6 +96,7 @@ static void run(Node* n) {
     case PTICK: P("t%d@%zu ", n->n, len(current(Exception))); fflush(OUT); break;
     case PSEQ: run(n->a); run(n->b); break;
     case PTHROW: THROW(n->n, n->m); break;
+    case PTHROWF: THROWF(n->n, n->m, run_v, n->a); break;
     case PTRY: run_try(n); break;
     case PCALL: run_call(n); break;
   }
